@@ -30,12 +30,27 @@ def main():
     meta = {"seed": seed, "breaks_property": prop, "ran": []}
     patch = (out / "patch.diff").read_text()
     # 1. confirmation in the scratch worktree
+    rust = "rust/" in patch
+
+    def build_ext():
+        if not rust:
+            return
+        tgt = f"{wt}_target"
+        rcb, ob = sh(f"cd {wt}/rust && CARGO_TARGET_DIR={tgt} PYO3_PYTHON=/venv/bin/python cargo build --release "
+                     f"--offline --features pyo3/extension-module && cp {tgt}/release/libsedpack_rs.so "
+                     f"{wt}/src/sedpack/_sedpack_rs.cpython-312-x86_64-linux-gnu.so", timeout=1800)
+        if rcb != 0:
+            print("rust build failed", ob[-2000:])
+            raise SystemExit(2)
+
     sh("git checkout -- . && git clean -fdq -e '*.so'", cwd=wt)
+    build_ext()
     rc0, o0 = sh(f"/venv/bin/python {out}/demo.py", cwd=wt, env=env, timeout=1800)
     rc, o = sh(f"git apply {out}/patch.diff", cwd=wt)
     if rc != 0:
         print("patch does not apply:", o)
         return 2
+    build_ext()
     rc1, o1 = sh(f"/venv/bin/python {out}/demo.py", cwd=wt, env=env, timeout=1800)
     meta["demo_exit_without_change"] = rc0
     meta["demo_exit_with_change"] = rc1
@@ -78,6 +93,8 @@ def main():
             sh("git -C /repo checkout -- .")
     meta["checks"] = results
     meta["caught_by"] = sorted(c for c, r in results.items() if r["exit"] == 1)
+    if rust:
+        shutil.rmtree(f"{wt}_target", ignore_errors=True)
     (dst / "meta.json").write_text(json.dumps(meta, indent=1))
     print(json.dumps({k: meta[k] for k in ("seed", "confirmed", "demo_exit_without_change", "demo_exit_with_change",
                                             "existing_tests_with_change", "caught_by")}, indent=1))
